@@ -324,6 +324,9 @@ def trimmed_pattern(rep, rule, c, r):
 
 
 # ---- shadow-register address hash: sibling agreement in Z/2**k -----------------------------------------
+_COVER = set()
+
+
 def _modR(e, R, M):
     """Linear form {term: coef} (+ const under key None) of e modulo R, where R is a power of two and M == R - 1.
     Returns None when the expression cannot be reduced (then the rule is undecided)."""
@@ -343,11 +346,14 @@ def _modR(e, R, M):
     if e[0] == 'bin' and e[1] == '%':
         if e[3] == R:
             return _modR(e[2], R, M)
-        return None
+        return {e: 1}                                   # a remainder by something else: an opaque integer
     if e[0] == 'nary' and e[1] == '&':
         ops = list(e[2])
         if any(o == ('un', '~', M) for o in ops):
             return {}                                   # a multiple of R
+        # (size - 1) ^ (R - 1) with size a power of two >= R is the mask of the bits above the register size
+        if any(o[0] == 'nary' and o[1] == '^' and len(o[2]) == 2 and M in o[2] and any(x in _COVER for x in o[2]) for o in ops):
+            return {}
         if M in ops:
             rest = [o for o in ops if o != M]
             if len(rest) == 1:
@@ -379,8 +385,23 @@ def shadow_hash(rep, idx, rule):
     rep.analysed(dec.fi.site, enc.fi.site)
     R = dec.parse("2 ** ceil_log2(reg_range.stop - reg_range.start)")
     M = dec.norm(('bin', '-', R, ('const', 1)))
-    d = [dec.norm(v) for v, gen, ln in dec.t.returns]
-    e = [enc.norm(v) for v, gen, ln in enc.t.returns]
+    def canon_size(ctx_, v):
+        # register ranges are never empty and have step 1 (MemoryMap hands them out): len(r) == r.stop - r.start >= 1, hence
+        # (len(r) - 1).bit_length() == ceil_log2(len(r))
+        def f(x):
+            if x[0] == 'call' and x[1] == ('name', 'len') and len(x[2]) == 1 and x[2][0] == ('name', 'reg_range'):
+                return ir.parse("reg_range.stop - reg_range.start")
+            if x[0] == 'call' and x[1][0] == 'attr' and x[1][2] == 'bit_length' and not x[2]:
+                r_ = x[1][1]
+                if r_[0] == 'lin' and r_[1] == -1:
+                    return ('call', ('name', 'ceil_log2'), (ctx_.norm(('lin', 0, r_[2])),), ())
+            return None
+        v2 = ctx_.norm(ir.subst(v, f))
+        return ctx_.norm(ir.subst(v2, f))
+    d = [canon_size(dec, dec.norm(v)) for v, gen, ln in dec.t.returns]
+    e = [canon_size(enc, enc.norm(v)) for v, gen, ln in enc.t.returns]
+    global _COVER
+    _COVER = {dec.parse("self._size - 1"), dec.parse("self.size - 1")}
     if len(d) != 1 or len(e) != 1:
         rep.unk(rule, dec.fi.site, "shadow hash", "decode_address / encode_offset do not have a single return")
         return
